@@ -1553,6 +1553,13 @@ def run(chk, model_ok):
                 tags.append("gathered-axes:%d" % cs["k"])
             if any(x.get("comp") for x in cs["cons"]):
                 tags.append("compressed-metadata-construct")
+            for x in cs["cons"]:
+                if x.get("comp") and x.get("list") is not None:
+                    tags.append("gathered-own-list:" + ("equal" if list(x["list"]) == list(cs["list"]) else
+                                                        "different-same-length" if len(x["list"]) == len(cs["list"])
+                                                        else "different-length"))
+            if cs.get("data_plain"):
+                tags.append("gathered-constructs-under-uncompressed-data")
             for t in tags:
                 feats[t] = feats.get(t, 0) + 1
             distinct.add(lib.canon([cs, c["options"]]))
